@@ -72,6 +72,8 @@ type interpreter struct {
 	ufApps      []ufApp
 	collisionFree bool
 	czCount     int
+	divCount    int
+	divCache    map[divKey][2]*smt.Term
 	opaqueAlloc bool
 }
 
